@@ -1,5 +1,5 @@
 # shared driver for integrated scheduler scenarios (h_sched) validated against SchedAbs
-import os, json, vlib
+import os, re, json, vlib
 SD = os.path.join(vlib.SPEC, 'sched')
 
 
@@ -36,3 +36,35 @@ def run_scenarios(res, pid, which, nseeds, seed, threads=(2, 3, 4)):
                              group_fn=lambda t: next((e.get('name') for e in t if e['e'] == 'Scenario'), None))
     res.extra['integrated_executions'] = res.extra.get('integrated_executions', 0) + nexec
     res.extra['real_steps_executed'] = res.extra.get('real_steps_executed', 0) + steps
+
+
+def replay_taskstream(res, pid, cfgs):
+    """every edge of the TaskStream state graph (cfg, harness args) replayed on the real task_stream: population word and lane mutex flags compared per step,
+    Spawn / Got / End validated by TLC (TraceTaskPool)"""
+    SDS = SD
+    ts_exe = vlib.build_harness('h_taskstream', ['sched/h_taskstream.cpp'])
+    for cfg, args in cfgs:
+        tag = pid.lower() + '-' + cfg[:-4]
+        os.makedirs(os.path.join(vlib.BUILD, 'graphs'), exist_ok=True)
+        dot = os.path.join(vlib.BUILD, 'graphs', tag + '.dot')
+        r = vlib.tlc(SDS, 'MCts', cfg, dump=dot, deadlock=False, timeout=3000, xmx='24g'); res.add_tlc(r, 'TaskStream:' + cfg); vlib.tlc_must_hold(r, cfg)
+        if r.violation:
+            raise vlib.HarnessFailure('TaskStream model violates %s' % r.violation)
+        nodes, edges, init = vlib.parse_dot(dot, ['pop', 'mtx'], raw=True); os.unlink(dot)
+
+        def conv(v):
+            f = v.split('\x1f'); m = re.findall(r'(TRUE|FALSE)', f[1])
+            return '%d,%d,%d' % (sum(1 << int(x) for x in re.findall(r'\d+', f[0])), m[0] == 'TRUE', m[1] == 'TRUE')
+        nodes = {k: conv(v) for k, v in nodes.items()}
+        paths, cov, tot = vlib.edge_cover(nodes, edges, init)
+        sched = os.path.join(vlib.BUILD, 'graphs', tag + '.sched'); vlib.write_schedules(paths, sched)
+        sums, tfs = vlib.run_harness_parallel(lambda part, tf: [ts_exe, part, tf] + args, sched, tag, timeout=2500)
+        ssum = vlib.sum_dicts(sums); os.unlink(sched)
+        vlib.validate_and_report(res, SDS, 'TraceTaskPool', 'TraceTaskPool.cfg', vlib.collect_traces(tfs), tag,
+                                 lambda tr: 'replay of TaskStream on the real task_stream: an enqueued task was handed out twice or is stranded in a lane whose population bit is clear: ' + json.dumps([e for e in tr if not e['e'].startswith('#')]),
+                                 sig_fn=lambda tr: 'taskstream:' + ('stuck' if any(e['e'] == 'Stuck' for e in tr) else 'dup-or-loss'))
+        vlib.log('%s: %d states, %d/%d edges in %d schedules, %d real steps, drift %d, mismatch %d' % (tag, r.distinct, cov, tot, len(paths), ssum['steps'], ssum['drift'], ssum['state_mismatch']))
+        res.extra['spec_edges_replayed'] = res.extra.get('spec_edges_replayed', 0) + cov; res.extra['spec_edges_total'] = res.extra.get('spec_edges_total', 0) + tot
+        res.extra['drift_steps'] = res.extra.get('drift_steps', 0) + ssum['drift'] + ssum['state_mismatch']
+        if ssum['drift'] + ssum['state_mismatch']:
+            print('SPEC-DRIFT property=%s task_stream replay: %d paths disagree with TaskStream.tla' % (pid, ssum['drift'] + ssum['state_mismatch']))
